@@ -1,11 +1,263 @@
 package main
 
 import (
+	"bufio"
+	"encoding/json"
+	"flag"
 	"fmt"
+	"math/rand/v2"
 	"os"
+	"strings"
 )
 
+// Go-side randomized input drivers.  They choose INPUTS only (tables, call
+// sequences, request bytes); every expectation lives in the TLA+ specification.
+
+type gpat struct {
+	P   string
+	Wps []map[string]string // simple witness values (bytes disjoint from all literal text of the pool)
+	Fam int                 // sub-pool (patterns of one family share prefixes)
+}
+
+func w(kv ...string) map[string]string {
+	m := map[string]string{}
+	for i := 0; i+1 < len(kv); i += 2 {
+		m[kv[i]] = kv[i+1]
+	}
+	return m
+}
+
+// literal bytes used by the pool: / u x 5 l o g z y p . h - s a b c d e f t r w v k m i n j  (values use 7 8 9 q Q 0)
+var gpool = []gpat{
+	{"/u/{id}", []map[string]string{w("id", "7q"), w("id", "Q9")}, 0},
+	{"/u/{id:\\d+}", []map[string]string{w("id", "77"), w("id", "908")}, 0},
+	{"/u/{id:digit}", []map[string]string{w("id", "78")}, 0},
+	{"/u/{id:word}", []map[string]string{w("id", "7q8")}, 0},
+	{"/u/5", []map[string]string{w()}, 0},
+	{"/u/{id}/x", []map[string]string{w("id", "7q")}, 0},
+	{"/u/{id}/{p:\\d+}", []map[string]string{w("id", "7q", "p", "88")}, 0},
+	{"/u/{id}/{act}/log", []map[string]string{w("id", "7q", "act", "8Q")}, 0},
+	{"/u/{-id}/z", []map[string]string{w("id", "7q")}, 0},
+	{"/u/{uid}/x", []map[string]string{w("uid", "7q")}, 0},
+	{"/u/{u}/y", []map[string]string{w("u", "7q")}, 0},
+	{"/u/{id}/x/{rest}", []map[string]string{w("id", "7q", "rest", "9Q")}, 0},
+	{"/u/{id:[^/]+}/k", []map[string]string{w("id", "7q")}, 0},
+	{"/u/{id:.+}/m", []map[string]string{w("id", "7q")}, 0},
+	{"/p/{id:\\d+}.h", []map[string]string{w("id", "77")}, 1},
+	{"/p/{id:\\d+}.x", []map[string]string{w("id", "77")}, 1},
+	{"/p/{path}.h", []map[string]string{w("path", "7q")}, 1},
+	{"/p-{a}-{b:any}.h", []map[string]string{w("a", "7q", "b", "8Q")}, 1},
+	{"/p/{id:any}aa", []map[string]string{w("id", "7q")}, 1},
+	{"/p/{-id:\\d+}.z", []map[string]string{w("id", "77")}, 1},
+	{"/p/{n:\\d*}", []map[string]string{w("n", "77")}, 1},
+	{"/posts/author", []map[string]string{w()}, 2},
+	{"/posts/abc", []map[string]string{w()}, 2},
+	{"/posts/", []map[string]string{w()}, 2},
+	{"/posts", []map[string]string{w()}, 2},
+	{"/posts/{id}/author", []map[string]string{w("id", "7q")}, 2},
+	{"/posts/{id}/author/email", []map[string]string{w("id", "7q")}, 2},
+	{"/posts/{id}", []map[string]string{w("id", "7q")}, 2},
+	{"/posts/{id:digit}/author", []map[string]string{w("id", "78")}, 2},
+	{"/", []map[string]string{w()}, 2},
+	{"/s/a", []map[string]string{w()}, 3}, {"/s/b", []map[string]string{w()}, 3}, {"/s/c", []map[string]string{w()}, 3},
+	{"/s/d", []map[string]string{w()}, 3}, {"/s/e", []map[string]string{w()}, 3}, {"/s/f", []map[string]string{w()}, 3},
+	{"/s/g", []map[string]string{w()}, 3}, {"/s/ab", []map[string]string{w()}, 3},
+	{"/s/{id}", []map[string]string{w("id", "7q")}, 3},
+	{"/s/{n:\\d+}", []map[string]string{w("n", "77")}, 3},
+	{"/s/{id}/t", []map[string]string{w("id", "7q")}, 3},
+	{"a", []map[string]string{w()}, 4}, {"b", []map[string]string{w()}, 4}, {"c", []map[string]string{w()}, 4},
+	{"d", []map[string]string{w()}, 4}, {"e", []map[string]string{w()}, 4}, {"f", []map[string]string{w()}, 4},
+	{"{top}", []map[string]string{w("top", "7q")}, 4},
+	{"{top}/r", []map[string]string{w("top", "7q")}, 4},
+}
+
+var gIcpt = map[string]string{"digit": "digit", "word": "word", "any": "any"}
+
+func substPat(p string, ps map[string]string) string {
+	var b strings.Builder
+	for i := 0; i < len(p); {
+		if p[i] == '{' {
+			j := strings.IndexByte(p[i:], '}') + i
+			name := p[i+1 : j]
+			if k := strings.IndexByte(name, ':'); k >= 0 {
+				name = name[:k]
+			}
+			name = strings.TrimPrefix(name, "-")
+			b.WriteString(ps[name])
+			i = j + 1
+			continue
+		}
+		b.WriteByte(p[i])
+		i++
+	}
+	return b.String()
+}
+
+type gcase struct {
+	Fam     string         `json:"fam"`
+	ID      string         `json:"id"`
+	Cfg     map[string]any `json:"cfg"`
+	Ops     []map[string]any `json:"ops"`
+	Battery string         `json:"battery"`
+	Base    bool           `json:"base,omitempty"`
+	Mirror  bool           `json:"mirror,omitempty"`
+	Pool    map[string]any `json:"pool,omitempty"`
+}
+
+func mutatePath(r *rand.Rand, p string, anyByte bool) string {
+	b := []byte(p)
+	rb := func() byte {
+		if anyByte {
+			return byte(r.IntN(256))
+		}
+		const al = "/ux57.-azq{}:%"
+		return al[r.IntN(len(al))]
+	}
+	switch r.IntN(7) {
+	case 0:
+		if len(b) > 0 {
+			i := r.IntN(len(b))
+			b = append(b[:i], b[i+1:]...)
+		}
+	case 1:
+		i := r.IntN(len(b) + 1)
+		b = append(b[:i], append([]byte{rb()}, b[i:]...)...)
+	case 2:
+		if len(b) > 0 {
+			b[r.IntN(len(b))] = rb()
+		}
+	case 3: // duplicate the tail
+		if len(b) > 1 {
+			i := r.IntN(len(b))
+			b = append(b, b[i:]...)
+		}
+	case 4:
+		b = append(b, '/')
+	case 5: // splice two halves around a slash
+		if i := strings.LastIndexByte(p, '/'); i > 0 {
+			b = []byte(p[:i] + p[i:] + p[i:])
+		}
+	case 6:
+		b = append(b, rb(), rb())
+	}
+	return string(b)
+}
+
+var regM = []string{"GET", "POST", "DELETE", "PUT"}
+var oddM = []string{"GET", "POST", "HEAD", "OPTIONS", "TRACE", "BOGUS", "", "get", "PATCH", "CONNECT"}
+
+func genRouter(r *rand.Rand, n int, mode string, out *bufio.Writer) {
+	for ci := 0; ci < n; ci++ {
+		// sub-pool: one or two families plus a few strays
+		f1, f2 := r.IntN(5), r.IntN(5)
+		sub := []gpat{}
+		for _, p := range gpool {
+			if p.Fam == f1 || (r.IntN(3) == 0 && p.Fam == f2) || r.IntN(12) == 0 {
+				if r.IntN(4) > 0 {
+					sub = append(sub, p)
+				}
+			}
+		}
+		if len(sub) < 3 {
+			sub = append(sub, gpool[:4]...)
+		}
+		if len(sub) > 12 {
+			r.Shuffle(len(sub), func(i, j int) { sub[i], sub[j] = sub[j], sub[i] })
+			sub = sub[:12]
+		}
+		trace := r.IntN(4) == 0
+		cfg := map[string]any{"name": "r", "trace": trace, "icpt": gIcpt, "domain": ""}
+		probes := []map[string]any{}
+		addProbe := func(path, wit string, wps map[string]string) {
+			if wps == nil {
+				wps = map[string]string{}
+			}
+			probes = append(probes, map[string]any{"path": l1enc(path), "wit": wit, "wps": wps})
+		}
+		for _, p := range sub {
+			for _, ps := range p.Wps {
+				path := substPat(p.P, ps)
+				addProbe(path, p.P, ps)
+				for k := 0; k < 2; k++ {
+					addProbe(mutatePath(r, path, mode == "bytes"), "", nil)
+				}
+			}
+		}
+		addProbe("", "", nil)
+		addProbe("*", "", nil)
+		methods := []string{"GET", "POST", "OPTIONS", "HEAD"}
+		methods = append(methods, oddM[r.IntN(len(oddM))])
+		depth := 4 + r.IntN(8)
+		ops := []map[string]any{}
+		for s := 0; s < depth; s++ {
+			p := sub[r.IntN(len(sub))]
+			k := r.IntN(20)
+			if mode == "addonly" || s < 3 {
+				k = 0
+			}
+			switch {
+			case k < 12:
+				ms := []string{regM[r.IntN(len(regM))]}
+				if mode != "addonly" && r.IntN(6) == 0 {
+					ms = append(ms, oddM[r.IntN(len(oddM))])
+					if r.IntN(2) == 0 {
+						ms[0], ms[1] = ms[1], ms[0]
+					}
+				}
+				if r.IntN(10) == 0 {
+					ms = []string{}
+				}
+				ops = append(ops, map[string]any{"op": "handle", "pat": p.P, "methods": ms, "mws": []string{}, "chain": []any{}, "res": false})
+			case k < 16:
+				ms := []string{oddM[r.IntN(len(oddM))]}
+				if r.IntN(3) == 0 {
+					ms = append(ms, regM[r.IntN(len(regM))])
+				}
+				if r.IntN(3) == 0 {
+					ms = []string{}
+				}
+				ops = append(ops, map[string]any{"op": "remove", "pat": p.P, "methods": ms, "mws": []string{}, "chain": []any{}, "res": false})
+			default:
+				chain := []any{}
+				if r.IntN(4) > 0 {
+					pre := p.P[:1+r.IntN(len(p.P))]
+					if strings.Count(pre, "{") == strings.Count(pre, "}") { // a prefix never ends inside a token
+						chain = append(chain, map[string]any{"p": pre, "mws": []string{}})
+					}
+				}
+				ops = append(ops, map[string]any{"op": "clean", "pat": "", "methods": []string{}, "mws": []string{}, "chain": chain, "res": false})
+			}
+		}
+		c := gcase{Fam: "router", ID: fmt.Sprintf("g%s:%d", mode, ci), Cfg: cfg, Ops: ops, Battery: "every", Base: true,
+			Pool: map[string]any{"probes": probes, "methods": methods}}
+		b, _ := json.Marshal(c)
+		out.Write(b)
+		out.WriteByte('\n')
+	}
+}
+
 func cmdGen(args []string) {
-	fmt.Fprintln(os.Stderr, "gen: not built yet")
-	os.Exit(2)
+	fs := flag.NewFlagSet("gen", flag.ExitOnError)
+	fam := fs.String("fam", "router", "")
+	mode := fs.String("mode", "mixed", "")
+	seed := fs.Uint64("seed", 1, "")
+	n := fs.Int("n", 100, "")
+	outp := fs.String("out", "cases.ndjson", "")
+	fs.Parse(args)
+	f, err := os.Create(*outp)
+	if err != nil {
+		fmt.Fprintln(os.Stderr, err)
+		os.Exit(2)
+	}
+	out := bufio.NewWriterSize(f, 1<<20)
+	r := rand.New(rand.NewPCG(*seed, 0x9e3779b97f4a7c15))
+	switch *fam {
+	case "router":
+		genRouter(r, *n, *mode, out)
+	default:
+		fmt.Fprintln(os.Stderr, "gen: unknown family", *fam)
+		os.Exit(2)
+	}
+	out.Flush()
+	f.Close()
 }
